@@ -182,6 +182,32 @@ def run(ctx):
                      'list_eqb (fun a b => String.eqb (fst a) (fst b) && (match snd a, snd b with (x, y, z), (x2, y2, z2) => (x =? x2) && (y =? y2) && (z =? z2) end)) '
                      '(flat_map (fun c => match c with CGex a r _ => [(a, r)] | _ => [] end) cs) %s' % (cstrs(c['kex']), cstrs(c['key']), env, cstrs(c['kex']), ans, openssh, exp_hk, exp_gex))
         descs.append(desc)
+    # ---- protocol-version fallback: at most one retry, whatever the peer keeps answering ----
+    mm = b'Protocol major versions differ.\n'
+    fb = []
+    for second in ('mismatch', 'ssh1', 'close', 'garbage'):
+        for opts in ([], ['-1', '-2'], ['-2'], ['-1']):
+            fb.append({'second': second, 'opts': opts})
+
+    def do_fb(z, c):
+        first = P.RawServer([b'SSH-1.99-OpenSSH_3.0\r\n', ('sleep', 0.05), mm], then='close-now')
+        nxt = {'mismatch': first, 'ssh1': P.Ssh1Server({}), 'close': P.RawServer([], then='close-now'), 'garbage': P.RawServer([b'SSH-1.99-OpenSSH_3.0\r\n', bytes(range(40, 80))], then='close-now')}[c['second']]
+        srv = P.Server(P.PerConn([first, nxt]), stall_limit=3.0)
+        try:
+            res = z.run(['-n', '--skip-rate-test', '-t', '1'] + c['opts'] + ['127.0.0.1:%d' % srv.port], timeout=60)
+            time.sleep(0.1)
+            return {'rc': res['rc'], 'timed_out': res['timed_out'], 'conns': srv.conns(), 'err': res['err'][-200:]}
+        finally:
+            srv.shutdown()
+    with runner.Pool() as pool:
+        fres = pool.map(do_fb, fb)
+    for c, r in zip(fb, fres):
+        d = {'op': 'cli-fallback-footprint', 'second_connection': c['second'], 'opts': c['opts'], 'conns': r['conns'], 'rc': r['rc']}
+        nontriv.add(('fallback', c['second'], tuple(c['opts']), r['conns']))
+        if r['timed_out'] or r['rc'] not in (0, 1, 2, 3):
+            ctx.violation('audit-failed/fallback', 'status %r timed_out %r against a peer answering the protocol-mismatch text: %s' % (r['rc'], r['timed_out'], r['err']), d)
+        if r['conns'] > 2:
+            ctx.violation('fallback-conns-exceed', '%d connections to a peer that answers %r (then: %s); the SSH-1 retry is one more connection at most' % (r['conns'], mm.decode().strip(), c['second']), d)
     ctx.correspond('conn-log', ['VModel:AuditSM'], '', terms, lambda i: descs[i])
     ctx.cover(len(cases), nontriv, [{'key': cases[0]['key'], 'kex': cases[0]['kex'], 'gex_style': cases[0]['gex_style'], 'conns': results[0]['conns']}],
               'real CLI over TCP against scripted servers: random host-key lists (probe-table types, ok/close/garbage/stall replies), GEX styles (answer all / >=2048 / refuse / garbage / stall once / only 1024), with and without --skip-rate-test (rate connections answered by SSH banner); server-side log of every connection, its phase, messages and EOF; non-trivial = distinct (hostkey conns, gex conns, rate conns, gex style)')
